@@ -11,6 +11,7 @@ B1 == Bkg("pub", "s1", "off")          \* accepted
 B2 == Bkg("pub", "s2", "on")           \* accepted, other seed, momentum-direction lock installed
 B3 == Bkg("pub", "s2", "rect")         \* the same with the rectangular cut: B3 then B2 on one action must forget the second half-angle
 BZ == Bkg("pubz", "s1", "off")         \* accepted; its first decay contains a particle of zero momentum (one primary per particle, still)
+BB == Bkg("pubb", "s1", "off")         \* accepted: a background request for a name that the double-beta catalogue publishes as well
 BU == Bkg("unpub", "s1", "off")        \* the dispatcher knows the name, the catalogue does not: refused by the core tools
 BX == Bkg("unk", "s1", "off")          \* unknown name
 BN == Bkg("pub", "neg", "off")         \* negative seed
@@ -20,7 +21,7 @@ DM == Dbd("pub", "s1", 0, 0, "none")   \* undefined mode
 DL == Dbd("pub", "s1", 1, 9, "none")   \* level the daughter does not have
 CX == [cat |-> "bad", nuc |-> "pub", seed |-> "s1", mode |-> 0, level |-> 0, win |-> "none", mdl |-> "off"]
 
-MCConfigs   == {B1, B2, B3, BZ, BU, BX, BN, D1, DX, DM, DL, CX}
+MCConfigs   == {B1, B2, B3, BZ, BB, BU, BX, BN, D1, DX, DM, DL, CX}
 MCVertexers == {"p1", "p2", "seq", "none"}
 
 ASSUME MCConfigs \subseteq ConfigSpace
